@@ -251,10 +251,19 @@ class Stack:
         self.sim.trace.append((self.sim.now, self.idx, 'api', 'unsubscribe', cb.cid))
         return self.call(('unsubscribe', self.sim.now, cb.cid), lambda: self.ecu.unsubscribe(cb.fire))
 
-    def add_ca(self, name_value, addr, bypass):
+    def add_ca(self, name_value, addr, bypass, accept_all=False):
         import j1939
+        cls = j1939.ControllerApplication
+        if accept_all:
+            # an application-defined CA whose acceptance filter lets everything through (the pattern of the library's own
+            # test helper AcceptAllCA): what a CA without an address may do is decided by the handlers, not by this filter
+            class AcceptAllCA(j1939.ControllerApplication):
+                def message_acceptable(self, dest_address):
+                    return True
+            cls = AcceptAllCA
+
         def f():
-            ca = j1939.ControllerApplication(j1939.Name(value=name_value), addr, bypass_address_claim=bypass)
+            ca = cls(j1939.Name(value=name_value), addr, bypass_address_claim=bypass)
             self.ecu.add_ca(controller_application=ca)
             self.cas.append(ca)
         self.call(('add_ca', name_value, -1 if addr is None else addr, 1 if bypass else 0), f)
